@@ -72,6 +72,17 @@ CLAIMED = {
             'numeric slack: delta 1e-13 (per-file), 1e-7 (cube, float32 model store), 3e-7 (cube stored f4).',
             'deterministic simulation: seeded end-to-end pipeline runs with environment knobs and stage crash/restart faults; planted-truth oracle from an independent reference model',
             'DESIGN.md section 5 (C08)'),
+    'C16': ('exploration',
+            'The memory limit is treated as a tuning knob that must not change the result: for every seeded per-file world and every '
+            'generated wavelength window the monochromatic convolver is run with EVERY chunk size 1..n_wav plus the default, each into a fresh '
+            'convolved/ under a permuted directory listing; the returned table, the set of files, FILTWAV, row order and every cell are compared '
+            'with the author\'s arrays, and a digest of (files, contents) must be identical across chunk sizes. Cube clause: Fitters with '
+            'wavelength "filters" at/between/outside tabulated wavelengths, memmap on/off, cube in either spectral order. Worlds and windows are '
+            'sampled by seed; the chunk-size dimension is enumerated completely for each.',
+            'Window ends that coincide with a tabulated wavelength may go either way (but identically for all chunk sizes); empty windows and '
+            'half-way requests are outside the quantifier; float32 model store tolerance derived from float32 rounding of the flux and of its log10.',
+            'deterministic simulation: seeded worlds/windows x complete enumeration of the chunk-size knob under listing permutation; reference-array and cross-knob differential oracles',
+            'DESIGN.md section 5 (C16)'),
 }
 
 NOT_APPLICABLE = {
